@@ -676,3 +676,13 @@
   (and (=> ((_ is tok_int) t) (= (to_real (tok_int.v t)) r))
        (=> ((_ is tok_f64) t) (and (f64.finite (tok_f64.v t)) (= (f64.real (tok_f64.v t)) r)))
        (or ((_ is tok_int) t) ((_ is tok_f64) t) ((_ is tok_str) t))))
+
+; ---- generic set: membership as the bucket scan of Set.Has computes it, over a bucket map and the heap of
+; ---- bucket arrays (C03: the callbacks of the set operations)
+(define-fun set_mem ((m MapC<Int~Slice>) (h (Array Int (Array Int Any))) (r Any) (v Any)) Bool
+  (and (select (MapC<Int~Slice>.dom m) (r_hash r v))
+       (exists ((j Int)) (! (and (trig j) (<= 0 j) (< j (Slice.len (select (MapC<Int~Slice>.val m) (r_hash r v))))
+                                 (r_equiv r v (select (select h (Slice.ptr (select (MapC<Int~Slice>.val m) (r_hash r v)))) (+ (Slice.off (select (MapC<Int~Slice>.val m) (r_hash r v))) j))))
+                            :pattern ((trig j))))))
+(define-fun set_buckets_ok ((m MapC<Int~Slice>)) Bool
+  (forall ((k Int)) (! (=> (select (MapC<Int~Slice>.dom m) k) (slice.ok (select (MapC<Int~Slice>.val m) k))) :pattern ((select (MapC<Int~Slice>.val m) k)))))
